@@ -61,10 +61,24 @@ func (x *notExec) ctx(i int) context.Context {
 	return x.ctxs[i]
 }
 
+// harnessInts is a named type whose underlying type is []int: a []int value is assignable to it although neither type is
+// an interface and the two are not identical
+type harnessInts []int
+
 func fmtVal(v any) string {
 	switch t := v.(type) {
 	case nil:
 		return "nil"
+	case []int:
+		if t == nil {
+			return "nil"
+		}
+		return fmt.Sprintf("l%d", t[0])
+	case harnessInts:
+		if t == nil {
+			return "nil"
+		}
+		return fmt.Sprintf("l%d", t[0])
 	case int:
 		return fmt.Sprintf("i%d", t)
 	case string:
@@ -148,6 +162,8 @@ func (x *notExec) do(g string, op NOp) {
 		case "string":
 			vs = fmt.Sprintf("s%d", id)
 			v = vs
+		case "slice":
+			v, vs = []int{id}, fmt.Sprintf("l%d", id)
 		default:
 			v, vs = nil, "nil"
 		}
@@ -223,7 +239,7 @@ func (x *notExec) recv(g string, t int) (stopped bool) {
 func genNotScenario(rng *rand.Rand, profile, mode string) any {
 	sc := &NScenario{Profile: profile, NCtx: 2 + rng.Intn(2)}
 	keys := []string{"a", "b"}
-	vts := []string{"int", "string", "nil", "int"}
+	vts := []string{"int", "string", "nil", "int", "slice"}
 	// setup: a handful of subscriptions in random insertion order
 	perm := rng.Perm(5)
 	ns := 2 + rng.Intn(4)
@@ -288,7 +304,7 @@ func genNotScenario(rng *rand.Rand, profile, mode string) any {
 func runNotExec(execID int, sci any, e *Env) []rec.Ev {
 	sc := sci.(*NScenario)
 	x := &notExec{e: e, n: new(bigbuff.Notifier), stop: make(chan struct{}), subc: map[string]subcInfo{}}
-	x.targets = []any{nil, make(chan int), make(chan any, 1), make(chan *int), make(chan string), make(chan any)}
+	x.targets = []any{nil, make(chan int), make(chan any, 1), make(chan *int), make(chan string), make(chan harnessInts)}
 	x.ctxs = make([]context.Context, sc.NCtx+1)
 	x.cancels = make([]context.CancelFunc, sc.NCtx+1)
 	for i := 1; i <= sc.NCtx; i++ {
